@@ -16,6 +16,8 @@ ASSUMPTIONS = ["the history reaches the generator as a packet file; framing is c
 MODEL_IS_SPEC = False
 FLAGS = {"C": 0, "F": 1, "L": 2, "U": 3}
 
+responses_agree = genutil.same_events
+
 
 def is_trivial(line, mo):
     return "W:" not in mo and mo.count(" P ") <= 0
@@ -131,6 +133,8 @@ def oracle(line, out):
 
 
 def oracle_one(opts, data, out):
+    if "W:?" in out:
+        return None          # a warning whose wording is not recognised: its kind is not known here (the model comparison decides)
     pb, ho, cb, sh, yu = opts
     k = int(sh)
     pk, i = [], 0
